@@ -51,6 +51,10 @@ def worlds(tier: str, stats: Dict[str, Any]) -> Iterator[Any]:
                             stats["transitions"] += 1
                             yield dict(mode="tree", fam=[list(x) for x in fam], launches=[[p, list(d)] for p, d in zip(pl, devs)],
                                        orphan=orphan)
+                            if k >= 1 and not orphan:
+                                stats["transitions"] += 1
+                                yield dict(mode="tree", fam=[list(x) for x in fam], launches=[[p, list(d)] for p, d in zip(pl, devs)],
+                                           orphan=False, file_order="reversed")
                             if n <= 2 and not orphan:
                                 # small thread ids: the root of a thread's stack is numbered -tid, next to the sentinels -1 / -2
                                 for tid in (1, 2, 3):
@@ -102,6 +106,8 @@ def build_tree_world(w) -> List[Dict[str, Any]]:
         corr += 1
     if w["orphan"]:
         evs.append(kineto.kernel("kern_orphan", E0 + 1, 2, 9, 99))
+    if w.get("file_order") == "reversed":
+        evs = evs[:1] + evs[1:][::-1]
     return evs
 
 
